@@ -86,3 +86,10 @@ Print Assumptions C25_rep_all_rules.
 Print Assumptions C25_initial.
 Print Assumptions C25_ec.
 Print Assumptions C25_ec_distinct_nodes.
+
+(* the saveObject entry for REP rules differs from [save_rep] only by an early refusal *)
+Theorem C25_entry : forall session ack local lists rep ini p acc,
+  put_rep session ack local lists rep ini = (Ok, p, acc) ->
+  save_rep ack local lists rep ini = (Ok, p, acc).
+Proof. exact put_rep_ok_inv. Qed.
+Print Assumptions C25_entry.
